@@ -35,7 +35,7 @@ ASSUMPTIONS = [
     "selection diagram nodes derived independently from Tikka & Karvanen's definition (also compared with y0's, as a label)",
 ]
 BUDGET = {
-    "quick": dict(examples=150, shards=16, seconds=200),
+    "quick": dict(examples=500, shards=16, seconds=200),
     "thorough": dict(examples=3000, shards=16, seconds=2400),
 }
 ESSENTIAL_LABELS = {t: ["answered", "uses-source-domain", "no-domains", "none", "domains>=2"] for t in ("quick", "thorough")}
